@@ -77,6 +77,10 @@ fn journal_sp_value(
     sp_register: &Variable,
 ) -> Result<()> {
     match (rhs, lhs) {
+        // Note that `constant - sp` is not an offset to the stack pointer.
+        (Expression::Const(_), Expression::Var(_)) if !is_plus => {
+            Err(anyhow!("Input not stackpointer register minus constant."))
+        }
         (Expression::Var(sp), Expression::Const(constant))
         | (Expression::Const(constant), Expression::Var(sp)) => {
             if sp == sp_register {
